@@ -349,6 +349,13 @@ func (fr *Frame) applyContract(st *State, fc *FuncContract, key string, callee *
 	}
 	pkg := vc.prog.typesPkgByName(fc.Pkg)
 	env := &Env{vc: vc, st: st, old: st, vars: vars, pkg: pkg, pkgName: fc.Pkg}
+	// a contract proved with bit-vector arithmetic means Go's wrapping arithmetic: its clauses keep that meaning when they
+	// are used in a unit that reasons with mathematical integers
+	crossBV := fc.ModeSet && fc.Mode == ModeBV && vc.mode == ModeInt
+	env.goArith = crossBV
+	if fc.ModeSet && fc.Mode == ModeInt && vc.mode == ModeBV {
+		vc.assumptions["contract of "+key+" was proved with mathematical integers and is read with bit-vector arithmetic here (same meaning only while its expressions do not overflow)"] = true
+	}
 	cond := fr.curCond
 	// receiver non-nil (implicit precondition of pointer-receiver methods of the repository)
 	if callee != nil && callee.Signature.Recv() != nil && len(args) > 0 {
@@ -439,6 +446,7 @@ func (fr *Frame) applyContract(st *State, fc *FuncContract, key string, callee *
 	}
 	bindResults(pvars, rnames, results)
 	penv := &Env{vc: vc, st: st, old: pre, vars: pvars, pkg: pkg, pkgName: fc.Pkg}
+	penv.goArith = crossBV
 	anyHeads := map[int]*State{}
 	penv.headAny = func(k int) *State {
 		if hs, ok := anyHeads[k]; ok {
